@@ -7,7 +7,8 @@ CONSTANTS
   MaxChunks = 1
   NVals = {2}
   Damaging = FALSE
+  Cards = {}
   EmitMode = "none"
 VIEW View
-INVARIANTS TypeOK RanksOK IndexOK Stable DamageDetected EmitState
+INVARIANTS TypeOK RanksOK IndexOK Stable WideOK DamageDetected EmitState
 CHECK_DEADLOCK FALSE
